@@ -63,6 +63,17 @@ CLAIMS = {
           'and under a patched executor with reverse/rotated/random completion orders (thorough: real spawn pool).',
   'note': 'Trusted: Lean kernel + standard axioms; hand model Model/Deblend.lean tied by differential testing; skimage watershed and _detect_sources inside the per-source deblender are not modelled; real OS scheduling is replaced by adversarial orders through a patched as_completed.',
  },
+ 'C09': {
+  'design_ref': 'DESIGN.md §5 C09',
+  'technique': 'Lean 4 proofs over tables regenerated from the source: generic lazy-object theorem (resource lifetime), scale-invariant of profile normalisation by induction over histories, call-independence from attribute-write sets',
+  'text': 'Proved in Lean: (a) a generic theorem - if the micro-step table of a lazily evaluated object passes the decidable checks W1 (no use of a resource after its drop inside one read) and W2 (a drop is guarded by every other reader being cached) then EVERY finite history of reads succeeds '
+          '(checked_table_never_fails, history_ok) - instantiated by `decide` for the Background2D table extracted on each run from background_2d.py, in the three filter configurations (bkg2d_order_free_thrNone/_thrBelow/_selective). '
+          '(b) For the rescale table extracted from profiles/core.py + radial_profile.py: along every history of normalize(max|sum)/unnormalize/first reads each cached array equals raw/normalization_value in exact arithmetic, and after unnormalize it is the raw array whenever it was first read '
+          '(profile_history_inv, unnormalize_restores). (c) For the attribute sets extracted from psf/photometry.py no call writes an attribute outside the per-call reset set, so every configuration attribute keeps the constructor value through any call sequence '
+          '(config_kept, psfphot_call_independent, iterative_psfphot_call_independent). [partial] The numeric content of the attributes is not modelled; star finders, Ellipse, aperture attribute setters and GriddedPSFModel are covered only by the fresh-object oracle on the implementation. '
+          'Tie: tables regenerated every run; Background2D read orders (all ordered pairs/triples + random) and profile histories run on the real objects and compared with the model and with fresh objects.',
+  'note': 'Trusted: Lean kernel + standard axioms; AST table extractors (tools/extract_tables.py); the abstraction "value = function of immutable resources"; known finding F18 (Ellipse.fit_image flags persist by design).',
+ },
 }
 
 _todo = 'check not built yet in this round (see DESIGN.md §10 build order); not claimed until its machinery is committed'
